@@ -171,7 +171,7 @@ fn main() {
 
     // (a)
     let alpha = alphabet();
-    let n = run.pick(5, 6);
+    let n = run.pick(5, 7);
     run.bound(format!("(a) all {} sequences of <= {} lines over {} lines", seqs::count(alpha.len(), n), n, alpha.len()));
     seqs::par_seqs(&run, "C11(a)", alpha.len(), n, 2, |_| false, |s, t| {
         let mut text = vec![];
